@@ -18,9 +18,9 @@ Lemma reach_sound : forall fuel P x y, reach fuel P x y = true -> clos_trans tag
 Proof.
   induction fuel as [|f IH]; simpl; intros P x y H; [discriminate|].
   apply existsb_exists in H. destruct H as [[a b] [Hq H]]. simpl in H.
-  apply andb_true_iff in H. destruct H as [Ha H]. apply tag_eqb_eq in Ha. subst a.
-  apply orb_true_iff in H. destruct H as [H|H].
-  - apply tag_eqb_eq in H. subst. now apply t_step.
+  destruct (tag_eqb a x) eqn:Ha; [|discriminate]. apply tag_eqb_eq in Ha. subst a.
+  destruct (tag_eqb b y) eqn:Hb.
+  - apply tag_eqb_eq in Hb. subst. now apply t_step.
   - apply IH in H. eapply t_trans; [apply t_step; exact Hq|].
     eapply clos_trans_mono; [|exact H]. intros u v Huv. apply In_drop_from in Huv. apply Huv.
 Qed.
@@ -68,9 +68,9 @@ Proof.
   induction fuel as [|f IH]; intros P x y Hl H.
   - destruct P; simpl in Hl; [|lia]. apply first_step_from in H. destruct H as [w [[] _]].
   - apply first_step_from in H. destruct H as [w [Hw H]]. simpl.
-    apply existsb_exists. exists (x, w). split; auto. simpl. rewrite tag_eqb_refl. simpl.
+    apply existsb_exists. exists (x, w). split; auto. simpl. rewrite tag_eqb_refl.
     destruct H as [->|H]; [now rewrite tag_eqb_refl|].
-    apply orb_true_iff. right. apply IH; auto.
+    destruct (tag_eqb w y); auto. apply IH; auto.
     assert (length (drop_from x P) < length P).
     { apply (filter_length_lt _ P (x, w)); auto. simpl. now rewrite tag_eqb_refl. }
     fold (drop_from x P). lia.
